@@ -178,15 +178,13 @@ macro_rules! wbin32 {
         cover(r.is_ok());
     }};
 }
-/// the exponent fields of the quick (binade-restricted) variants: subnormals, the smallest normal binade, [1, 2), [2^24, 2^25) and the largest binade.
-pub fn quick_binade(bits: u32) -> bool { let e = (bits >> 23) & 0xFF; e == 0 || e == 1 || e == 127 || e == 151 || e == 254 }
-
-macro_rules! wbin32q {
-    ($radix:expr, $base:expr, $eradix:expr, $F:expr, $notation:expr) => {{
+macro_rules! wbin32e {
+    ($e:expr, $radix:expr, $base:expr, $eradix:expr, $F:expr, $notation:expr) => {{
         const F: u128 = $F;
-        let bits: u32 = any();
-        assume(quick_binade(bits));
-        let v = f32::from_bits(bits);
+        let m: u32 = any();
+        let neg: bool = any();
+        assume(m < (1 << 23));
+        let v = f32::from_bits(((neg as u32) << 31) | (($e as u32) << 23) | m);
         let r = cmp_wbin_f32::<F>(v, $radix, $base, $eradix, $notation);
         vcheck!(r.is_ok(), "power-of-two radix output denotes exactly the float's value");
         cover(r.is_ok());
@@ -308,37 +306,44 @@ crate::harnesses! {
     #[cfg_attr(kani, kani::unwind(16))]
     fn rt_f32_radix8() { rt32!(crate::radix_format(8), 0) }
 
-    /// hex float (radix 16, exponent base 2), every f32 mantissa in five binades (subnormal, smallest normal, [1,2), [2^24,2^25), largest), both signs.
+    /// hex float (radix 16, exponent base 2), every f32 in [1, 2) and (-2, -1] (every finite f32: wbin_f32_hex16_base2, thorough).
     /// @prop C06 C09
-    /// @bound f32 values whose exponent field is one of 0, 1, 127, 151, 254
+    /// @bound f32 values with exponent field 127
     /// @feat pow2 radix
     /// @fn lexical-write-float::hex::write_float
-    /// @fn lexical-write-float::hex::{write_float_scientific, write_float_positive_exponent, write_float_negative_exponent}
-    /// @fn lexical-write-float::binary::{truncate_and_round, write_float_*}
     /// @timeout 1200
     #[cfg_attr(kani, kani::unwind(14))]
-    fn wbin_f32_hex16_base2_binades() { wbin32q!(16, 2, 10, mixed_format(16, 2), 0) }
+    fn wbin_f32_hex16_base2_e127() { wbin32e!(127, 16, 2, 10, mixed_format(16, 2), 0) }
 
-    /// radix 16 (same exponent base), every f32 mantissa in the same five binades, both signs.
+    /// radix 16 (same exponent base), every f32 in [1, 2) and (-2, -1] (every finite f32: wbin_f32_radix16, thorough).
     /// @prop C06 C09
-    /// @bound f32 values whose exponent field is one of 0, 1, 127, 151, 254
+    /// @bound f32 values with exponent field 127
     /// @feat pow2 radix
     /// @fn lexical-write-float::binary::write_float
     /// @timeout 1200
     #[cfg_attr(kani, kani::unwind(14))]
-    fn wbin_f32_radix16_binades() { wbin32q!(16, 16, 16, crate::radix_format(16), 0) }
+    fn wbin_f32_radix16_e127() { wbin32e!(127, 16, 16, 16, crate::radix_format(16), 0) }
 
-    /// radix 16 with max_significant_digits 1..=2, both round modes, f32 in [0.5, 4) (known finding F11 lives here).
+    /// radix 8, every f32 with exponent field 1 (smallest normal binade: long negative exponent, scientific notation).
+    /// @prop C06 C09
+    /// @bound f32 values with exponent field 1
+    /// @feat pow2 radix
+    /// @fn lexical-write-float::binary::write_float
+    /// @timeout 1200
+    #[cfg_attr(kani, kani::unwind(16))]
+    fn wbin_f32_radix8_e1() { wbin32e!(1, 8, 8, 8, crate::radix_format(8), 0) }
+
+    /// radix 16 with max_significant_digits 1..=2, both round modes, f32 in [1, 2) and (-2, -1] (known finding F11 lives here).
     /// @prop C14
-    /// @bound f32 values with binary exponent in -1..=1
+    /// @bound f32 values with exponent field 127
     /// @feat pow2 radix
     /// @fn lexical-write-float::binary::truncate_and_round
     /// @fn lexical-write-float::binary::{write_float_scientific, write_float_positive_exponent, write_float_negative_exponent} (digit alignment)
     /// @timeout 1200
     #[cfg_attr(kani, kani::unwind(16))]
-    fn wbin_maxdigits_r16_binades() {
+    fn wbin_maxdigits_r16_e127() {
         const F: u128 = crate::radix_format(16);
-        let bits: u32 = any(); assume((bits >> 23) & 0xFF >= 126 && (bits >> 23) & 0xFF <= 128);
+        let bits: u32 = any(); assume((bits >> 23) & 0xFF == 127);
         let v = f32::from_bits(bits);
         let max: usize = any(); assume(max >= 1 && max <= 2);
         let truncate: bool = any();
